@@ -34,6 +34,15 @@ try:
     rc1, o1 = run_demo()
     res["demo_with_patch"] = "fail" if rc1 != 0 else "PASSES(unexpected)"
     if pkgs:
+        # the repository's own tests are judged without the demonstration files in the packages
+        for d in list(demos):
+            for q in {os.path.join(wt, d), os.path.join(wt, d.replace("SEEDED/", "", 1))}:
+                if q.endswith("_test.go") and os.path.exists(q) and "/SEEDED/" not in q:
+                    os.remove(q)
+        for root, _, files in os.walk(wt):
+            if "/SEEDED" in root or "/.git" in root: continue
+            for f in files:
+                if f.startswith("zz_seeded") and f.endswith("_test.go"): os.remove(os.path.join(root, f))
         r = subprocess.run(["/verif/tools/basecheck.py", "--repo", wt] + pkgs, stdout=subprocess.PIPE, text=True)
         res["basecheck"] = "ok" if r.returncode == 0 else "FAILS: " + r.stdout[-800:]
     print(json.dumps(res, indent=1))
